@@ -461,6 +461,8 @@ fn write_evidence(o: &Opts, b: &Batch, violations: i128, known_hits: &[String], 
         ("samples", J::A(b.samples.iter().take(4).map(|(r, t)| obj(vec![("run", i(*r)), ("history", s(t))])).collect())),
         ("exhaustive", J::B(false)),
         ("runs_per_hour", J::N(b.runs_done as f64 / b.wall.max(1e-9) * 3600.0)),
+        ("seeds_per_hour", J::N(b.runs_done as f64 / b.wall.max(1e-9) * 3600.0)),
+        ("seeds_note", s("every run has its own PRNG stream derived from (VERIF_SEED, property, run index): one seed per run")),
         ("simulated_time", obj(vec![
             ("unit", s(if is_rng { "RNG words served (logical steps; nothing in the system reads a clock)" } else { "events applied (logical steps; nothing in the system reads a clock)" })),
             ("steps", i(st.steps)),
@@ -580,6 +582,20 @@ fn do_replay(path: &str) -> i32 {
                 }
             }
         }
+        replay::Replay::Sequence { property, seed, upto, clause, .. } => {
+            println!("replaying the single-threaded run sequence 0..={upto} of {property} under seed {seed}");
+            match seq_first_failure(&property, seed, upto + 1) {
+                Some((k, c, obs)) => {
+                    println!("REPLAY-FAIL clause={c} step={k} observed={obs}");
+                    println!("VIOLATION property={property} replay={path}");
+                    1
+                }
+                None => {
+                    println!("REPLAY-PASS property={property} (recorded clause {clause} no longer fails)");
+                    0
+                }
+            }
+        }
         replay::Replay::Rng { case, clause, .. } => {
             println!("replaying C19 script of {} words on {}", case.words.len(), case.qt.pname());
             let c2 = case.clone();
@@ -668,6 +684,82 @@ fn cmd_trace(args: &[String]) -> i32 {
         }
     }
     0
+}
+
+/// Single-threaded, in run-index order, in this process: the first run in 0..n that fails a clause
+/// of `prop`. Deterministic even if the code under test keeps process-global hidden state.
+fn seq_first_failure(prop: &str, seed: u64, n: u64) -> Option<(u64, String, String)> {
+    let mut st = Stats::new();
+    let outcomes = [Bitmap::new(256), Bitmap::new(65536), Bitmap::new(64)];
+    for run in 0..n {
+        match prop {
+            "C04" | "C12" => {
+                let mode = if prop == "C04" { Mode::C04 } else { Mode::C12 };
+                let g = gen::generate_and_run(seed, run, mode, &mut st);
+                if let Some(f) = g.failure {
+                    if f.clause.property() == mode {
+                        return Some((run, f.clause.name().to_string(), f.observed));
+                    }
+                }
+            }
+            _ => {
+                let g = rngsim::generate_and_run(seed, run, &mut st, &outcomes);
+                if let Some(f) = g.failure {
+                    return Some((run, f.clause.name().to_string(), f.observed));
+                }
+            }
+        }
+    }
+    None
+}
+
+/// `simcheck seqfind <prop> --seed S --runs N`: prints `SEQFAIL run=K clause=C observed=…`, exit 1; else exit 0.
+fn cmd_seqfind(args: &[String]) -> i32 {
+    let prop = match args.first() {
+        Some(p) => p.clone(),
+        None => return 2,
+    };
+    let mut seed = DEFAULT_SEED;
+    let mut runs = 0u64;
+    let mut it = args[1..].iter();
+    while let Some(a) = it.next() {
+        match a.as_str() {
+            "--seed" => seed = it.next().and_then(|v| v.parse().ok()).unwrap_or(seed),
+            "--runs" => runs = it.next().and_then(|v| v.parse().ok()).unwrap_or(0),
+            _ => {}
+        }
+    }
+    match seq_first_failure(&prop, seed, runs) {
+        Some((k, c, obs)) => {
+            println!("SEQFAIL run={k} clause={c} observed={obs}");
+            1
+        }
+        None => 0,
+    }
+}
+
+/// Fallback for failures that do not reproduce from their own history: find the first failing
+/// run of the single-threaded sequence in a fresh process, record a sequence replay, confirm it.
+fn sequence_fallback(o: &Opts) -> Option<String> {
+    let n = o.runs.min(3_000_000);
+    let exe = std::env::current_exe().ok()?;
+    let out = std::process::Command::new(&exe).args(["seqfind", &o.prop, "--seed", &o.seed.to_string(), "--runs", &n.to_string()]).output().ok()?;
+    let t = String::from_utf8_lossy(&out.stdout).to_string();
+    let line = t.lines().find(|l| l.starts_with("SEQFAIL "))?.to_string();
+    let rest = line.strip_prefix("SEQFAIL run=")?;
+    let (k, rest) = rest.split_once(" clause=")?;
+    let (clause, observed) = rest.split_once(" observed=")?;
+    let k: u64 = k.parse().ok()?;
+    let path = format!("{}/{}-{}-seq{}.replay", o.replays, o.prop, o.seed, k);
+    replay::write_sequence(&path, &o.prop, o.seed, k, &o.profile, clause, observed).ok()?;
+    if let Err(e) = fresh_process_replay(&path, clause, k as usize, observed) {
+        eprintln!("simcheck: {e}");
+        return None;
+    }
+    println!(
+        "violation: a failure that does not reproduce from its own history alone (hidden state across operations in the code under test): the single-threaded sequence of runs 0..={k} fails clause {clause} at run {k}: {observed}"
+    );
+    Some(path)
 }
 
 const HANG_OBSERVED: &str = "no return within 10 s";
@@ -811,6 +903,8 @@ fn cmd_run(o: &Opts) -> i32 {
     let known = load_known(&o.known);
     let mut known_hits: Vec<String> = Vec::new();
     let mut violation: Option<String> = None;
+    // failures seen during generation that do not fail again from their own recorded history
+    let mut not_isolated = 0u32;
     let _ = std::fs::create_dir_all(&o.replays);
 
     for qf in &b.qfails {
@@ -827,12 +921,8 @@ fn cmd_run(o: &Opts) -> i32 {
                 (qf.case.clone(), qf.failure.clone(), 0)
             }
             Some(None) => {
-                eprintln!(
-                    "simcheck: run {} failed clause {} during generation but its recorded history does not fail on the replay path: harness error",
-                    qf.run,
-                    qf.failure.clause.name()
-                );
-                return 2;
+                not_isolated += 1;
+                continue;
             }
         };
         let sig = quire_signature(&case, &f);
@@ -849,9 +939,10 @@ fn cmd_run(o: &Opts) -> i32 {
             eprintln!("simcheck: cannot write {path}: {e}");
             return 2;
         }
-        if let Err(e) = fresh_process_replay(&path, f.clause.name(), f.step, &f.observed) {
-            eprintln!("simcheck: {e}");
-            return 2;
+        if fresh_process_replay(&path, f.clause.name(), f.step, &f.observed).is_err() {
+            let _ = std::fs::remove_file(&path);
+            not_isolated += 1;
+            continue;
         }
         println!(
             "violation: run {} ({} events, minimised to {} in {} evaluations): clause {} at step {}",
@@ -896,9 +987,10 @@ fn cmd_run(o: &Opts) -> i32 {
                 eprintln!("simcheck: cannot write {path}: {e}");
                 return 2;
             }
-            if let Err(e) = fresh_process_replay(&path, f.clause.name(), f.sample, &f.observed) {
-                eprintln!("simcheck: {e}");
-                return 2;
+            if fresh_process_replay(&path, f.clause.name(), f.sample, &f.observed).is_err() {
+                let _ = std::fs::remove_file(&path);
+                not_isolated += 1;
+                continue;
             }
             println!(
                 "violation: run {} ({} words over {} samples, minimised to {} words): clause {} — {}",
@@ -913,6 +1005,17 @@ fn cmd_run(o: &Opts) -> i32 {
             println!("  signature: {sig}");
             violation = Some(path);
             break;
+        }
+    }
+
+    if violation.is_none() && not_isolated > 0 {
+        println!("note: {not_isolated} failing run(s) did not fail again from their own recorded history; trying the whole single-threaded run sequence");
+        match sequence_fallback(o) {
+            Some(p) => violation = Some(p),
+            None => {
+                eprintln!("simcheck: {not_isolated} run(s) failed during the batch but neither their own history nor the single-threaded run sequence reproduces a failure in a fresh process: harness error, no verdict");
+                return 2;
+            }
         }
     }
 
@@ -1013,6 +1116,7 @@ fn main() {
             }
         },
         Some("trace") => cmd_trace(&args[1..]),
+        Some("seqfind") => cmd_seqfind(&args[1..]),
         Some("replay") => match args.get(1) {
             Some(p) => do_replay(p),
             None => {
